@@ -33,14 +33,14 @@ PROPS["C07"] = {
 }
 
 PROPS["C02"] = {
-    "units": ["h1_transfer_encoding", "h1_codec", "h1_dispatcher_io", "h1_chunked", "h1_poll_request", "h1_poll_response"],
+    "units": ["h1_transfer_encoding", "h1_encode_headers", "h1_codec", "h1_dispatcher_io", "h1_chunked", "h1_poll_request", "h1_poll_response"],
     "kani": [],
-    "technique": "Verus contracts on the extracted real TransferEncoding encoder against an RFC 7230 chunk-framing oracle (exact bytes appended, length enforcement, terminator exactly once, short body is an error); Verus contracts on the extracted real InnerDispatcher::{send_response_inner, send_response, send_error_response, send_continue, handle_request, poll_response} over a ghost wire log, ghost request ids and a ghost answered/in-hand/queued order",
-    "level_text": "deductive proof, for all chunk contents/lengths and encoder states, that TransferEncoding::encode/encode_eof append exactly the oracle's bytes (chunked: hex CRLF data CRLF, terminator once; sized: cut to the declared length; eof: pass-through) and that a short sized body yields UnexpectedEof; MessageEncoder::encode chooses the body framing from (HEAD?, body size, chunked allowed, upgrade stream) of THIS message only; Codec::encode encodes the head with exactly the context recorded when that request was decoded; poll_flush writes every buffered byte exactly once and in order; and the theorem decode-of-encode (lemma_decode_of_encode in unit h1_chunked, over the shared wire oracle specs/chunked_wire.vs): for every list of non-empty chunks, the bytes the chunked encoder writes are decoded by the RFC 7230 automaton to exactly their concatenation, ending in state End with nothing left over; for InnerDispatcher::poll_response / send_response / send_error_response (all schedules of handler completion, body readiness and arrival of later requests, since every future and body is an arbitrary prophesied stream): a response head is encoded only when no response is open and body chunks / the terminator only inside an open one (never interleaved: these are preconditions of the codec's encode, discharged at every call site), the sequence (request ids already answered ++ the one in hand ++ the queued ones) only ever grows at the back, so responses are started in exactly the order requests were queued with one head each; the response started is the one the service/expect future of the request in hand produced; the 100-continue interim is written only between responses; the dispatcher state and the encoder agree on whether a response is open; an idle return means the queue is empty",
+    "technique": "Verus contracts on the extracted real TransferEncoding encoder against an RFC 7230 chunk-framing oracle (exact bytes appended, length enforcement, terminator exactly once, short body is an error); Verus contracts on the extracted real InnerDispatcher::{send_response_inner, send_response, send_error_response, send_continue, handle_request, poll_response} over a ghost wire log, ghost request ids and a ghost answered/in-hand/queued order; MessageType::encode_headers and helpers::write_content_length against an RFC 7230 section 3.3 head oracle (framing line, connection line, filtered handler headers, date, CRLF) with the oracle itself checked against the property's clauses by lemmas",
+    "level_text": "deductive proof, for all chunk contents/lengths and encoder states, that TransferEncoding::encode/encode_eof append exactly the oracle's bytes (chunked: hex CRLF data CRLF, terminator once; sized: cut to the declared length; eof: pass-through) and that a short sized body yields UnexpectedEof; MessageEncoder::encode chooses the body framing from (HEAD?, body size, chunked allowed, upgrade stream) of THIS message only; Codec::encode encodes the head with exactly the context recorded when that request was decoded; poll_flush writes every buffered byte exactly once and in order; and the theorem decode-of-encode (lemma_decode_of_encode in unit h1_chunked, over the shared wire oracle specs/chunked_wire.vs): for every list of non-empty chunks, the bytes the chunked encoder writes are decoded by the RFC 7230 automaton to exactly their concatenation, ending in state End with nothing left over; for InnerDispatcher::poll_response / send_response / send_error_response (all schedules of handler completion, body readiness and arrival of later requests, since every future and body is an arbitrary prophesied stream): a response head is encoded only when no response is open and body chunks / the terminator only inside an open one (never interleaved: these are preconditions of the codec's encode, discharged at every call site), the sequence (request ids already answered ++ the one in hand ++ the queued ones) only ever grows at the back, so responses are started in exactly the order requests were queued with one head each; the response started is the one the service/expect future of the request in hand produced; the 100-continue interim is written only between responses; the dispatcher state and the encoder agree on whether a response is open; an idle return means the queue is empty; for MessageType::encode_headers, for every status, body size, chunked flag, version, connection type and handler header list: the bytes appended are exactly framing line ++ connection line ++ the handler headers that pass the filter ++ date (iff the handler set none) ++ CRLF, where 1xx/204 carry neither Content-Length nor Transfer-Encoding (and the handler's are dropped), 304 generates none and keeps the handler's, a sized body announces exactly its size, Transfer-Encoding: chunked is written exactly for an unsized body of a chunk-capable exchange, a generated framing header is never duplicated by a handler header, the handler's Connection header never reaches the wire, `connection: close` is written for Close on HTTP/1.1+, keep-alive for KeepAlive below 1.1, upgrade for Upgrade; the result depends on nothing but this response and the (version, connection type) arguments",
     "level_note": "assumes shim contracts for bytes::BytesMut and that writeln!(MutWriter(buf), \"{:X}\\r\", n) appends upper-hex(n) CR LF (R12); in h1_poll_response the codec's encode, the service/expect futures and the bodies are assumed contracts (ghost log, prophesied streams), pin projection is erased (R3/R4b/R4c) and termination of the outer loop is not proved; independence of framing across pipelined requests is the known finding S1",
     "not_decided": ["the upgrade hand-off (PollResponse::Upgrade) and Dispatcher::poll calling poll_request/poll_response in turn: not under contract; poll_response assumes poll_request leaves an in-flight state alone, poll_request assumes (precondition) that an idle dispatcher has an empty queue, which poll_response ensures on every idle return", "the ghost wire log of h1_poll_response is not connected to the bytes Codec::encode writes (unit h1_codec proves those separately)",
                     "framing depends only on that request/response, not on other pipelined requests (Codec context held while a response is in flight; DESIGN.md S1)",
-                    "status-dependent header rules of MessageType::encode_headers (no body for 1xx/204/304, Content-Length/Transfer-Encoding/Connection headers)"],
+                    "the unsafe raw-pointer header writer inside encode_headers (write_data / write_camel_case / advance_mut) and write_headers' merge of extra headers: replaced by assumed-contract glue (R12/R26)"],
     "assumptions": ["TransferEncoding::encode precondition: msg.len() + 2 <= usize::MAX (a slice cannot span the whole address space)"],
 }
 PROPS["C18"] = {
